@@ -225,37 +225,34 @@ func ParseMIMEMessage(rawMessage string) (*ParsedMessage, error) {
 
 	fmt.Printf("DEBUG ParseMIMEMessage: mediaType='%s', boundary='%s'\n", mediaType, params["boundary"])
 
-	// Handle multipart messages
-	if strings.HasPrefix(mediaType, "multipart/") {
+	// Handle multipart messages. A multipart/* entity without a boundary parameter
+	// cannot be split into parts: its body is kept as it is, as a single part.
+	if strings.HasPrefix(mediaType, "multipart/") && params["boundary"] != "" {
 		boundary := params["boundary"]
-		if boundary != "" {
-			fmt.Printf("DEBUG ParseMIMEMessage: Parsing multipart with boundary='%s'\n", boundary)
+		fmt.Printf("DEBUG ParseMIMEMessage: Parsing multipart with boundary='%s'\n", boundary)
 
-			// Initialize parts list and add the root multipart container as the first part
-			parsed.Parts = []MessagePart{{
-				PartNumber:              0,               // Will be set during storage
-				ParentPartID:            sql.NullInt64{}, // No parent (root)
-				ContentType:             mediaType,
-				ContentDisposition:      "",
-				ContentTransferEncoding: "",
-				Charset:                 "",
-				Filename:                "",
-				ContentID:               "",
-				TextContent:             "", // Containers have no content
-				SizeBytes:               0,
-			}}
+		// Initialize parts list and add the root multipart container as the first part
+		parsed.Parts = []MessagePart{{
+			PartNumber:              0,               // Will be set during storage
+			ParentPartID:            sql.NullInt64{}, // No parent (root)
+			ContentType:             mediaType,
+			ContentDisposition:      "",
+			ContentTransferEncoding: "",
+			Charset:                 "",
+			Filename:                "",
+			ContentID:               "",
+			TextContent:             "", // Containers have no content
+			SizeBytes:               0,
+		}}
 
-			// Index 0 is the root multipart container we just added
-			rootIdx := 0
-			err = parseMultipart(msg.Body, boundary, 0, &rootIdx, &parsed.Parts)
-			if err != nil {
-				fmt.Printf("DEBUG ParseMIMEMessage: multipart parsing failed: %v\n", err)
-				return nil, fmt.Errorf("failed to parse multipart: %v", err)
-			}
-			fmt.Printf("DEBUG ParseMIMEMessage: Successfully parsed %d parts (including root container)\n", len(parsed.Parts))
-		} else {
-			fmt.Printf("DEBUG ParseMIMEMessage: multipart detected but no boundary!\n")
+		// Index 0 is the root multipart container we just added
+		rootIdx := 0
+		err = parseMultipart(msg.Body, boundary, 0, &rootIdx, &parsed.Parts)
+		if err != nil {
+			fmt.Printf("DEBUG ParseMIMEMessage: multipart parsing failed: %v\n", err)
+			return nil, fmt.Errorf("failed to parse multipart: %v", err)
 		}
+		fmt.Printf("DEBUG ParseMIMEMessage: Successfully parsed %d parts (including root container)\n", len(parsed.Parts))
 	} else {
 		// Single part message
 		fmt.Printf("DEBUG ParseMIMEMessage: Single-part message (not multipart)\n")
@@ -814,8 +811,10 @@ func reconstructPartDFS(buf *bytes.Buffer, sharedDB *sql.DB, node *PartNode, s3S
 	contentType := node.Part["content_type"].(string)
 	contentTypeLower := strings.ToLower(contentType)
 
-	// Check if this is a multipart container
-	if strings.HasPrefix(contentTypeLower, "multipart/") {
+	// Check if this is a multipart container. A multipart/* part that was stored
+	// without children (it had no boundary parameter) carries its octets as content
+	// and is written as a leaf.
+	if strings.HasPrefix(contentTypeLower, "multipart/") && len(node.Children) > 0 {
 		// This is a multipart container - generate a boundary and process children
 		multipartType := contentTypeLower // e.g., "multipart/mixed", "multipart/alternative", "multipart/related"
 
